@@ -230,6 +230,19 @@ func (b *bmpClient) loop() {
 				sentLocRIBPeerUp = true
 			}
 
+			// Route Monitoring for a neighbour belongs between its Peer Up and its
+			// Peer Down: the routes a graceful-restart neighbour leaves behind are
+			// not reported while it is down. Locally originated routes carry an
+			// unspecified address and have no Peer Up.
+			peerUp := make(map[netip.Addr]struct{})
+			reported := func(addr netip.Addr) bool {
+				if !addr.IsValid() || addr.IsUnspecified() {
+					return true
+				}
+				_, ok := peerUp[addr]
+				return ok
+			}
+
 			for {
 				select {
 				case ev := <-w.Event():
@@ -258,6 +271,9 @@ func (b *bmpClient) loop() {
 									}
 								}
 							}
+							if !reported(msg.PeerAddress) {
+								pathList = nil
+							}
 							for _, path := range pathList {
 								for _, u := range table.CreateUpdateMsgFromPaths([]*table.Path{path}) {
 									payload, _ := u.Serialize()
@@ -266,6 +282,8 @@ func (b *bmpClient) loop() {
 									}
 								}
 							}
+						} else if !reported(msg.PeerAddress) {
+							// nothing to send
 						} else if err := write(bmpPeerRoute(bmp.BMP_PEER_TYPE_GLOBAL, msg.PostPolicy, 0, msg.FourBytesAs, info, msg.Timestamp.Unix(), msg.Payload)); err != nil {
 							return false
 						}
@@ -293,10 +311,12 @@ func (b *bmpClient) loop() {
 								if err := write(bmpPeerUp(msg, bmp.BMP_PEER_TYPE_GLOBAL, false, 0)); err != nil {
 									return false
 								}
+								peerUp[msg.PeerAddress] = struct{}{}
 							} else if msg.Type != apiutil.PEER_EVENT_INIT && msg.OldState == bgp.BGP_FSM_ESTABLISHED {
 								if err := write(bmpPeerDown(msg, bmp.BMP_PEER_TYPE_GLOBAL, false, 0)); err != nil {
 									return false
 								}
+								delete(peerUp, msg.PeerAddress)
 							}
 						}
 					case *watchEventMessage:
